@@ -18,7 +18,8 @@ TV : premise P6, the glue of the HMC / NUTS kernels with blackjax (Trace_Glue): 
 Premises decided in depth under their own ids: P1 acceptance rule = C05, P2 corrections =
 C06, P3 exact conditionals = C13, P4 sequencing / coherence = C09, P5 frozen tuning = C11.
 A reduced conformance run of P1-P3 (same trace specs, fewer scenarios) is part of this
-check as well, so that a broken premise is reported under C04 too (keys `premise:P<k>:...`).
+check as well, so that a broken premise is reported under C04 too (keys `premise:P<k>:...`),
+plus P7: the kernels of a sequence are handed independent keys (engine traces, `engine:...`).
 Not decided: that blackjax's integrators / trajectory samplers are pi-invariant, and PRNG
 quality (trusted third-party base).  No statistical sampling test is run.
 """
@@ -79,3 +80,11 @@ def premises(chk, rng):
           {"hdr": {"kind": "bernoulli_direct", "nontrivial": True},
            "ev": gibbs_driver.discrete_events(rng, "bernoulli_direct", nkeys=64)}]
     chk.tv("Trace_Gibbs.tla", gt, tag="premise_P3_conditionals", keyfn=lambda r: f"premise:P3:{r.trace['hdr']['kind']}:{r.conjunct}")
+    # P4: the state a kernel hands on is coherent (Liesel model with a weak distributed variable and a default-transformed
+    # parameter whose bijector depends on another sampled parameter), closed form as the oracle
+    ct = [t for r in parallel.run_jobs("harness.comp_driver", "run", [dict(seq="rw_hi_u_ab", model_kind="liesel2", seed=chk.seed + 3)])
+          for t in r]
+    chk.tv("Trace_Composition.tla", ct, tag="premise_P4_coherence", keyfn=lambda r: f"premise:P4:{r.conjunct}")
+    # P7: the kernels of a sequence draw from independent random streams (no call's key is a split child of another's)
+    from checks import engine_common as EC
+    EC.validate(chk, EC.run_scenarios(chk, EC.handwritten(True)[:2], "premise_P7_keys"), "premise_P7_keys")
